@@ -67,20 +67,58 @@ Record xcase := {
   x_ms : list member;                 (* one member: the hint itself; several: Union[members] in this order *)
   x_dflt : option val;                (* add_argument(default=...) — assumed to conform *)
   x_in : val; x_oracle : list (str * lres);
-  x_opq : opq_table;                  (* observed adapt_typehints(value, opaque hint): AOk w, or AErr for any exception *)
+  x_opq : opq_table;                  (* observed adapt_typehints(value, opaque hint): AOk w, AErr ErrValue / ErrType *)
+  x_pred : list (str * str * bool);   (* (restricted string type, text, does the DECLARED pattern with its flags match) —
+                                         evaluated by Python's re in the harness process, independently of /repo *)
   x_obs : obs;
   x_parts : list bool;                (* the same input under each member alone (no default) *)
   x_perms : list (list nat * bool) }. (* the same input under Union[members permuted] *)
 
 Definition proxy (m : member) : member := match m with MTy TNone => MTy (TLit [LNone]) | _ => m end.
 
-Definition conforms_m (m : member) (w : val) : bool :=
+Fixpoint pred_lookup (tbl : list (str * str * bool)) (n s : str) : option bool :=
+  match tbl with
+  | [] => None
+  | (n', s', b) :: tbl' => if str_eqb n n' && str_eqb s s' then Some b else pred_lookup tbl' n s
+  end.
+Definition has_pred (tbl : list (str * str * bool)) (n : str) : bool := existsb (fun e => str_eqb n (fst (fst e))) tbl.
+
+(* a TypedDict value: a dict with exactly the declared keys, every value conforming to its field *)
+Definition conforms_td (strict : bool) (fs : list (str * ty)) (w : val) : bool :=
+  match w with
+  | VNone => negb strict
+  | VDict d =>
+      forallb (fun kv => match fst kv with
+                         | VStr k => match field_ty k fs with
+                                     | Some t => if strict then wf_ty t && shaped t (snd kv) else conforms t (snd kv)
+                                     | None => false
+                                     end
+                         | _ => false
+                         end) d
+      && forallb (fun f => existsb (fun kv => match fst kv with VStr k => str_eqb k (fst f) | _ => false end) d) fs
+  | _ => false
+  end.
+
+Definition conforms_m (pr : list (str * str * bool)) (m : member) (w : val) : bool :=
   match m with
   | MTy t => conforms t w
-  | MOpq n => match w with VOpaque k _ => str_eqb k n | VNone => true | _ => false end
+  | MOpq n => match w with
+              | VOpaque k s => str_eqb k n && match pred_lookup pr n s with Some b => b | None => negb (has_pred pr n) end
+              | VNone => true
+              | _ => false
+              end
+  | MTd _ fs => conforms_td false fs w
   end.
-Definition shaped_m (m : member) (v : val) : bool :=
-  match m with MTy t => wf_ty t && shaped t v | MOpq n => match v with VOpaque k _ => str_eqb k n | _ => false end end.
+Definition shaped_m (pr : list (str * str * bool)) (m : member) (v : val) : bool :=
+  match m with
+  | MTy t => wf_ty t && shaped t v
+  | MOpq n => match v with
+              | VOpaque k _ => str_eqb k n
+              | VStr s => match pred_lookup pr n s with Some b => b | None => false end   (* the declared predicate holds *)
+              | _ => false
+              end
+  | MTd _ fs => conforms_td true fs v
+  end.
 
 Definition impl_xd (c : xcase) (d : option val) (ms : list member) : obs :=
   obs_of (parse_key_x pinned (case_yload (x_oracle c)) (x_opq c) d ms (x_in c)).
@@ -90,8 +128,8 @@ Definition permute (ms : list member) (idx : list nat) : list member := map (fun
 
 Definition x_spec (c : xcase) : bool :=
   let acc := is_accepted (x_obs c) in
-  match x_obs c with Accepted w => existsb (fun m => conforms_m m w) (x_ms c) | Rejected => true | Crashed => false end
-  && (if existsb (fun m => shaped_m m (x_in c)) (x_ms c) then acc else true)
+  match x_obs c with Accepted w => existsb (fun m => conforms_m (x_pred c) m w) (x_ms c) | Rejected => true | Crashed => false end
+  && (if existsb (fun m => shaped_m (x_pred c) m (x_in c)) (x_ms c) then acc else true)
   && forallb (fun p => Bool.eqb acc (snd p)) (x_perms c)
   && match x_ms c, x_in c with
      | _, VNone => true                                     (* None for a key means "unset" *)
@@ -109,7 +147,7 @@ Definition x_model (c : xcase) : bool :=
   && oracle_consistent (x_oracle c).
 
 Definition x_class (c : xcase) : N :=
-  first_class (map (fun m => match m with MTy t => class_in (case_yload (x_oracle c)) t (x_in c) | MOpq _ => 0%N end) (x_ms c)).
+  first_class (map (fun m => match m with MTy t => class_in (case_yload (x_oracle c)) t (x_in c) | _ => 0%N end) (x_ms c)).
 
 (* the second kind of case: parse_object({'g': value}) on a parser with keys g.<field> *)
 Inductive case :=
